@@ -123,6 +123,9 @@ class Skel:
         LETS.clear()
         LETS.update(hir.let_env(it["body"]))
         self._fn_body = it["body"]
+        self._depth = 0
+        self.break_rest = None
+        self.ret_rest = None
         STATE_NAMES.clear()
         STATE_NAMES.update(_state_names(it))
         k = 0
@@ -151,6 +154,54 @@ class Skel:
                             cmps[a["path"]["hid"]] += 1
             self.progress_only = {h for h in snaps if uses[h] == cmps[h] and uses[h] > 0}
         return self.tail_ret(self.norm(self.ops(it["body"])))
+
+    def _for_ops(self, e, sc):
+        # `for pat in it { BODY }` desugars to match into_iter(it) { mut iter => loop { match next(&mut iter) { None => break,
+        # Some(pat) => BODY } } }: the loop body is BODY
+        body = None
+        for n in hir.walk(e["arms"][0]["body"]):
+            if n.get("k") == "Match" and n is not e:
+                for a in n["arms"]:
+                    try:
+                        if hir.pat_variants(a["pat"]) == {"Some"}:
+                            body = self.ops(a["body"])
+                    except hir.Unrecognised:
+                        pass
+                break
+        if body is None:
+            body = []
+            for a in e["arms"]:
+                body += self.ops(a["body"])
+        return sc + [("loop", self.norm(body))]
+
+    @staticmethod
+    def inlined_loop(init):
+        """the Loop that is the whole body of an inlined helper standing as a `let` initialiser (`let x = helper(..)?;` / `= helper(..);`)"""
+        x = strip(init) if init else None
+        while x is not None and x.get("k") == "DropTemps":
+            x = strip(x["e"])
+        if x is not None and x.get("k") == "Match" and "TryDesugar" in str(x.get("source", "")):
+            sc = x.get("scrut") or {}
+            if sc.get("k") == "Call" and len(sc.get("args") or []) == 1:
+                x = strip(sc["args"][0])
+        if x is not None and x.get("k") == "Loop" and x.get("inlined_from"):
+            return x
+        return None
+
+    def loop_with_rest(self, loop, rest, ret_too=False):
+        """a `loop` / `while` STATEMENT followed by REST (up to the end of the enclosing function body): leaving the loop by `break` means
+        "do REST and return", so REST is attached to every `break` of this loop and nothing follows the loop.  `loop { .. break Ok(x) }` as
+        the value of the function and `while c { .. return Err(e) } ..; Ok(x)` then have one skeleton."""
+        old_ = getattr(self, "break_rest", None)
+        old_r = getattr(self, "ret_rest", None)
+        self.break_rest = list(rest) + [("ret",)]
+        if ret_too:
+            self.ret_rest = self.break_rest          # inside an inlined helper `return v` hands v to the continuation, like `break v`
+        try:
+            return [("loop", self.norm(self.ops(loop["body"])))]
+        finally:
+            self.break_rest = old_
+            self.ret_rest = old_r
 
     def tail_ret(self, seq):
         """`return X` in tail position of the function is `X`: the ('ret',) marker is dropped there (recursively into the branches of a tail
@@ -261,10 +312,11 @@ class Skel:
         ee_n = self.norm(ee)
         # `if a && b {T}` (nothing in the else branch) is `if a { if b {T} }`; `while a && b {..}` is `while a { if !b {break} .. }`
         conj = self.conjuncts(c)
-        if len(conj) > 1 and not ee_n:
+        if len(conj) > 1:
+            # ... and with an else branch E: `if a && b {T} else {E}` is `if a { if b {T} else {E} } else {E}`
             inner = self.norm(tt)
             for x in reversed(conj):
-                inner = (("if", self.norm(self.ops(x)), inner, ()),)
+                inner = (("if", self.norm(self.ops(x)), inner, ee_n),)
             return list(inner)
         return [("if", self.norm(self.ops(c)), self.norm(tt), ee_n)]
 
@@ -446,6 +498,10 @@ class Skel:
                         other = (self.COMPLEMENT[k[0]],) if len(k) == 1 and k[0] in self.COMPLEMENT else None
                         rest = self.block_ops(stmts[i + 1:], tail, True)
                         return out + self.match_ops(self.ops(s["init"]), [(k, rest), (other, self.ops(s["els"]))])
+                il = self.inlined_loop(s.get("init")) if self._depth == 1 and not s.get("els") else None
+                if il is not None:
+                    rest = self.block_ops(stmts[i + 1:], tail, True)
+                    return out + self.loop_with_rest(il, rest, ret_too=True)
                 out += self.ops(s.get("init"))
                 ip = field_path(strip(s["init"])) if s.get("init") else None
                 if ip and ip[0] in STATE_NAMES and ip[-1] in ("head", "len_env") and s["pat"]["k"] == "Binding" \
@@ -462,7 +518,14 @@ class Skel:
                 if tw and self.leaves(tw[1][0][1]) != self.leaves(tw[1][1][1]):
                     rest = self.block_ops(stmts[i + 1:], tail, True)
                     return out + self.two_way_ops(tw, rest)
+                lp = strip(s["expr"])
+                if lp.get("k") == "Loop" and self._depth == 1:
+                    rest = self.block_ops(stmts[i + 1:], tail, True)
+                    return out + self.loop_with_rest(lp, rest)
                 out += self.ops(s["expr"])
+        lt = strip(tail) if tail is not None else None
+        if lt is not None and lt.get("k") == "Loop" and self._depth == 1:
+            return out + self.loop_with_rest(lt, [])
         out += self.ops(tail)
         return out
 
@@ -472,7 +535,11 @@ class Skel:
         e = strip(e)
         k = e["k"]
         if k == "Block":
-            return self.block_ops(e["stmts"], e.get("expr"))
+            self._depth = getattr(self, "_depth", 0) + 1
+            try:
+                return self.block_ops(e["stmts"], e.get("expr"))
+            finally:
+                self._depth -= 1
         if k == "MethodCall":
             recv = strip(e["recv"])
             rp = field_path(recv)
@@ -535,6 +602,13 @@ class Skel:
             if "TryDesugar" in src:
                 return sc            # `?`: the ("?",) marker was produced by the branch() call
             if "ForLoop" in src:
+                old_ = getattr(self, "break_rest", None)
+                self.break_rest = None
+                try:
+                    return self._for_ops(e, sc)
+                finally:
+                    self.break_rest = old_
+            if False:
                 # `for pat in it { BODY }` desugars to match into_iter(it) { mut iter => loop { match next(&mut iter) { None => break,
                 # Some(pat) => BODY } } }: the loop body is BODY
                 body = None
@@ -562,11 +636,21 @@ class Skel:
                 arms.append((self.arm_key(a["pat"], a.get("guard")), g + self.ops(a["body"])))
             return self.match_ops(sc, arms)
         if k == "Loop":
-            return [("loop", self.norm(self.ops(e["body"])))]
+            old_ = getattr(self, "break_rest", None)
+            self.break_rest = None
+            try:
+                return [("loop", self.norm(self.ops(e["body"])))]
+            finally:
+                self.break_rest = old_
         if k == "Ret":
-            return self.ops(e.get("e")) + [("ret",)]
-        if k in ("Break", "Continue"):
-            return self.ops(e.get("e")) + [(k.lower(),)]
+            rr_ = getattr(self, "ret_rest", None)
+            return self.ops(e.get("e")) + (list(rr_) if rr_ is not None else [("ret",)])
+        if k == "Break":
+            # in a loop that is followed by REST up to the end of the function, `break` means "do REST and return" (see block_ops)
+            br_ = getattr(self, "break_rest", None)
+            return self.ops(e.get("e")) + (list(br_) if br_ is not None else [("break",)])
+        if k == "Continue":
+            return self.ops(e.get("e")) + [("continue",)]
         if k == "Binary":
             out = self.ops(e["l"]) + self.ops(e["r"])
             l, r = strip(e["l"]), strip(e["r"])
